@@ -260,11 +260,11 @@ pub fn widening_lattice<
 }
 
 /// overflowing_mul / wrapping_mul on the "unit-limb" sub-domain: every limb of one operand is 0 or 1, the other operand
-/// is FULL, either operand order.  UF layer as above, but here every product is fixed by the axioms 0*x = 0 and 1*x = x,
+/// is FULL, one harness per operand order.  UF layer as above, but here every product is fixed by the axioms 0*x = 0 and 1*x = x,
 /// so the abstraction is exact and counterexamples reproduce natively; reaches limb counts the FULL-domain UF harnesses
 /// do not, and decides the limb-level structure there (zero trimming incl. middle limbs, operand swap, row windows,
 /// carry chains, overflow flag, masking).
-pub fn mul_unit<const B: usize, const L: usize, const W: usize>(nd: &mut Nd) {
+pub fn mul_unit<const B: usize, const L: usize, const W: usize, const SWAP: usize>(nd: &mut Nd) {
     let mut al = [0u64; L];
     let mut i = 0;
     while i < L {
@@ -273,7 +273,7 @@ pub fn mul_unit<const B: usize, const L: usize, const W: usize>(nd: &mut Nd) {
     }
     let a = Uint::<B, L>::from_limbs(refm::masked(al, B));
     let b: Uint<B, L> = nd.uint();
-    let swap = nd.bool();
+    let swap = SWAP != 0; // one harness per operand order
     // (no table: on this sub-domain every product is fixed by the unit axioms, which `umul` also applies to unknown keys)
     let mut p = [0u64; W];
     let _ = uf::school::<W>(&mut p, a.as_limbs(), b.as_limbs());
